@@ -461,9 +461,44 @@ func (e *c08Env) run(perm int) *c08Result {
 			}
 		}
 	}
+	// TablesToSend is a set of TABLE sums: a table must be selected as soon as SOME commit within depth of
+	// an accepted want (no common on the path) carries it, whatever other commits carry the same table.
+	// A missing table is attributable to the processing order of the wants (known class) only if some
+	// enqueueWants call looped over >= 2 wants AND every commit that should have contributed the table is
+	// also an ancestor-or-self of ANOTHER want, whose walk may have marked it "already seen" (plain
+	// reachability: that walk may have happened in an earlier round, before the final commons were known).
+	cfReach, plainReach := map[int]map[int]int{}, map[int]map[int]int{}
+	for _, w := range res.accepted {
+		if _, ok := cfReach[w]; !ok {
+			cfReach[w] = e.dist(w, isCommon)
+			plainReach[w] = e.dist(w, nil)
+		}
+	}
 	for _, t := range c08Sorted(lower) {
-		if !tset[t] {
+		if tset[t] {
+			continue
+		}
+		excusable := res.multi
+		for w, dm := range cfReach {
+			for x, d := range dm {
+				if e.tblOfC[x] != t || !(c.depth == 0 || d < c.depth) {
+					continue
+				}
+				other := false
+				for w2, dm2 := range plainReach {
+					if _, ok := dm2[x]; ok && w2 != w {
+						other = true
+					}
+				}
+				if !other {
+					excusable = false
+				}
+			}
+		}
+		if excusable {
 			bad("tables-depend-on-want-order", "table %d belongs to a commit within depth %d of an accepted want (no common on the path) but is not in TablesToSend %v", t, c.depth, res.tables)
+		} else {
+			bad("table-within-depth-missing", "table %d is carried by a commit within depth %d of an accepted want (no common on the path, not reachable from any other want) but is not in TablesToSend %v", t, c.depth, res.tables)
 		}
 	}
 	for _, t := range res.tables {
@@ -734,6 +769,25 @@ func genC08(ctx *Ctx) []Case {
 	add("witness", true, &c08Case{commits: criss, tables: all, refs: []int{5}, rounds: []c08Round{{[]int{5}, []int{1}, true}}})
 	add("witness", true, &c08Case{commits: criss, tables: all, refs: []int{5}, rounds: []c08Round{{[]int{5, 3}, []int{2}, true}}})
 	add("witness", true, &c08Case{depth: 2, commits: criss, tables: all, refs: []int{5}, rounds: []c08Round{{[]int{3, 4}, nil, true}}})
+	// several commits carrying the SAME table sum (TablesToSend is a set of table sums):
+	// a revert c1(T1)<-c2(T2)<-c3(T3)<-c4(T1); one commit reached by a short and a long path;
+	// identical data on two branches
+	revert := []c08Commit{{1, nil, 11, 1}, {2, []int{1}, 12, 2}, {3, []int{2}, 13, 3}, {4, []int{3}, 14, 1}}
+	for _, d := range []int{0, 1, 2, 3} {
+		add("witness", true, &c08Case{depth: d, commits: revert, tables: []int{1, 2, 3}, refs: []int{4}, rounds: []c08Round{{[]int{4}, nil, true}}})
+		add("witness", true, &c08Case{depth: d, commits: revert, tables: []int{1, 2, 3}, refs: []int{4}, rounds: []c08Round{{[]int{4, 2}, nil, true}}})
+		add("witness", true, &c08Case{depth: d, commits: revert, tables: []int{1, 2, 3}, refs: []int{4}, rounds: []c08Round{{[]int{4}, []int{1}, true}}})
+	}
+	shortLong := []c08Commit{{0, nil, 10, 10}, {1, []int{0}, 11, 11}, {2, []int{1, 0}, 12, 12}, {3, []int{0, 1}, 13, 13}}
+	twoBranch := []c08Commit{{0, nil, 10, 10}, {1, []int{0}, 11, 7}, {2, []int{0}, 12, 7}, {3, []int{1, 2}, 13, 13}, {4, []int{3}, 14, 7}}
+	for _, d := range []int{1, 2, 3} {
+		add("witness", true, &c08Case{depth: d, commits: shortLong, tables: all, refs: []int{2, 3}, rounds: []c08Round{{[]int{2}, nil, true}}})
+		add("witness", true, &c08Case{depth: d, commits: shortLong, tables: all, refs: []int{2, 3}, rounds: []c08Round{{[]int{3}, nil, true}}})
+		add("witness", true, &c08Case{depth: d, commits: twoBranch, tables: []int{7, 10, 13}, refs: []int{4}, rounds: []c08Round{{[]int{4}, nil, true}}})
+		add("witness", true, &c08Case{depth: d, commits: twoBranch, tables: []int{7, 10, 13}, refs: []int{4}, rounds: []c08Round{{[]int{3}, nil, true}}})
+		add("witness", true, &c08Case{depth: d, commits: twoBranch, tables: []int{7, 10, 13}, refs: []int{4}, rounds: []c08Round{{[]int{4, 1}, nil, true}}})
+		add("witness", true, &c08Case{depth: d, commits: twoBranch, tables: []int{7, 10, 13}, refs: []int{4}, rounds: []c08Round{{[]int{1, 2}, nil, true}}})
+	}
 	// deferral: done=false with a common while the walk reaches a root; then a later round
 	two := []c08Commit{{0, nil, 10, 10}, {1, []int{0}, 11, 11}, {2, nil, 12, 12}, {3, []int{2}, 13, 13}, {4, []int{1, 3}, 14, 14}}
 	add("witness", true, &c08Case{commits: two, tables: all, refs: []int{4}, rounds: []c08Round{{[]int{4}, []int{1}, false}, {nil, []int{3}, true}}})
@@ -788,10 +842,21 @@ func genC08(ctx *Ctx) []Case {
 					regime := counter % 3
 					depth := (counter / 3) % 4
 					c := &c08Case{depth: depth}
+					// table regime: own table per commit / two alternating tables (identical data on several
+					// commits) / the last commit reverts to the table of the first
+					tregime := (counter / 11) % 4
 					for i := 0; i < n; i++ {
-						c.commits = append(c.commits, c08Commit{id: i, parents: dag[i], time: c08Time(regime, i), table: 10 + i})
-						c.tables = append(c.tables, 10+i)
+						tb := 10 + i
+						switch {
+						case tregime == 2:
+							tb = 10 + i%2
+						case tregime == 3 && i == n-1:
+							tb = 10
+						}
+						c.commits = append(c.commits, c08Commit{id: i, parents: dag[i], time: c08Time(regime, i), table: tb})
+						c.tables = append(c.tables, tb)
 					}
+					ctx.Count(fmt.Sprintf("exh_table_regime_%d", tregime))
 					haves := []int{}
 					for _, h := range hv {
 						if h == n {
@@ -813,9 +878,15 @@ func genC08(ctx *Ctx) []Case {
 						c.refs = sinks
 					}
 					if (counter/7)%9 == 0 {
-						// one shallow commit (table missing)
-						k := (counter / 63) % n
-						c.tables = append(append([]int{}, c.tables[:k]...), c.tables[k+1:]...)
+						// one shallow commit (its table missing, also for every commit sharing that table)
+						gone := c.tables[(counter/63)%n]
+						kept := []int{}
+						for _, t := range c.tables {
+							if t != gone {
+								kept = append(kept, t)
+							}
+						}
+						c.tables = kept
 					}
 					switch (counter / 5) % 6 {
 					case 0: // not done: pending wants are flushed by CommitsToSend
@@ -854,7 +925,8 @@ func genC08(ctx *Ctx) []Case {
 		n := 2 + ctx.Pick(13)
 		regime := ctx.Pick(4) // 3 = random times
 		c := &c08Case{depth: ctx.Pick(4)}
-		shareTables := ctx.Pick(6) == 0
+		shareTables := ctx.Pick(3) == 0 // few table sums shared by many commits
+		reverts := ctx.Pick(3) == 0     // a commit may carry the table of an earlier commit
 		// a dangling parent makes the queue order observable (which pop hits the missing commit
 		// first), and with tied commit times that order follows Go map iteration: only with distinct times
 		dangling := ctx.Pick(25) == 0 && regime < 2
@@ -886,6 +958,8 @@ func genC08(ctx *Ctx) []Case {
 			tb := 10 + id
 			if shareTables {
 				tb = 10 + ctx.Pick(3)
+			} else if reverts && id > 0 && ctx.Pick(3) == 0 {
+				tb = c.commits[ctx.Pick(id)].table
 			}
 			c.commits = append(c.commits, c08Commit{id: id, parents: ps, time: tm, table: tb})
 			if ctx.Pick(12) != 0 {
@@ -945,6 +1019,9 @@ func genC08(ctx *Ctx) []Case {
 		ctx.Count(fmt.Sprintf("rand_depth_%d", c.depth))
 		if dangling {
 			ctx.Count("rand_dangling_parent")
+		}
+		if shareTables || reverts {
+			ctx.Count("rand_shared_table_sums")
 		}
 		add("rand", true, c)
 	}
